@@ -41,7 +41,10 @@ class Var:
 
 class X:
     """IR expression.  op: var | const | prim | not | and | or | call | cond
+       tuple: a pair/tuple value (iterator objects)
        prim kinds:  pure   `g args`            : T          (no state)
+                    alloc  `g s args`          : state * T  (writes, cannot fail: allocation of a fresh id)
+                    mpure  `g args`            : pres T     (no state, can fail: access to an array VALUE)
                     get    `g s args`          : T          (reads the state, cannot fail)
                     read   `g s args`          : pres T     (reads the state, can fail)
                     set    `g s args`          : state      (writes, cannot fail)
@@ -61,12 +64,14 @@ def subexprs(e):
         return [e.a, e.b]
     if e.op == "cond":
         return [e.c, e.a, e.b]
+    if e.op == "tuple":
+        return list(e.args)
     return []
 
 
 def x_monadic(e):
     """does evaluating e need a bind (can fail or writes)?"""
-    if e.op == "prim" and e.kind in ("read", "write", "rw"):
+    if e.op == "prim" and e.kind in ("read", "write", "rw", "mpure"):
         return True
     if e.op == "call":
         return True
@@ -74,7 +79,7 @@ def x_monadic(e):
 
 
 def x_writes(e):
-    if e.op == "prim" and e.kind in ("set", "write", "rw"):
+    if e.op == "prim" and e.kind in ("set", "write", "rw", "alloc"):
         return True
     if e.op == "call" and e.fn.writes_state():
         return True
@@ -303,13 +308,21 @@ def decl_line(d):
     return d.get("_line")
 
 
+def stmt_line(n):
+    b = n.get("range", {}).get("begin", {})
+    for l in (b, b.get("expansionLoc", {}), b.get("spellingLoc", {})):
+        if "line" in l:
+            return l["line"]
+    return n.get("_line")
+
+
 def kids(n):
     return [c for c in n.get("inner", []) if isinstance(c, dict) and "kind" in c]
 
 
 def strip_expr(n):
     """remove wrappers that carry no meaning in the subset"""
-    while n.get("kind") in ("ParenExpr", "ExprWithCleanups", "ConstantExpr") or \
+    while n.get("kind") in ("ParenExpr", "ExprWithCleanups", "ConstantExpr", "MaterializeTemporaryExpr") or \
             (n.get("kind") == "ImplicitCastExpr" and n.get("castKind") == "NoOp"):
         n = kids(n)[0]
     return n
@@ -350,24 +363,43 @@ class Part:
         if len(specs) != 1:
             raise Unsupported("expected exactly one instantiation of %s in the dump, found %d" % (self.cfg["class_name"], len(specs)))
         self.spec = specs[0]
-        self.methods = {}
-        for c in kids(self.spec):
-            if c.get("kind") in ("CXXMethodDecl", "CXXDestructorDecl", "CXXConversionDecl") and \
-                    any(k.get("kind") == "CompoundStmt" for k in kids(c)):
-                self.methods.setdefault(c["name"], []).append(c)
+        self.methods = {}        # (class, name) -> [decl];  class "" = the instantiated class itself, else a nested class
         self.by_id = {}
-        for lst in self.methods.values():
-            for m in lst:
-                self.by_id[m["id"]] = m
+        self.cls_of = {}
 
-    def method(self, cname, sig=None):
+        def collect(rec, cls):
+            for c in kids(rec):
+                cands = [c]
+                if c.get("kind") == "FunctionTemplateDecl":      # member template: its instantiations
+                    cands = [x for x in kids(c) if x.get("kind") == "CXXMethodDecl" and
+                             any(t.get("kind") == "TemplateArgument" for t in kids(x))]
+                for m in cands:
+                    if m.get("kind") in ("CXXMethodDecl", "CXXDestructorDecl") and \
+                            any(k.get("kind") == "CompoundStmt" for k in kids(m)):
+                        self.methods.setdefault((cls, m["name"]), []).append(m)
+                        self.by_id[m["id"]] = m
+                        self.cls_of[m["id"]] = cls
+                if c.get("kind") == "CXXRecordDecl" and c.get("completeDefinition") and cls == "" and \
+                        c.get("name") in self.cfg.get("classes", {}):
+                    collect(c, c["name"])
+        collect(self.spec, "")
+
+    def method(self, cname, sig=None, cls=""):
         if self.methods is None:
             self.load()
-        c = [m for m in self.methods.get(cname, []) if sig is None or m["type"]["qualType"] == sig]
+        c = [m for m in self.methods.get((cls, cname), []) if sig is None or m["type"]["qualType"] == sig]
         if len(c) != 1:
-            raise Unsupported("member function %s%s: %d definitions in the instantiated class" % (
-                cname, " with type " + sig if sig else "", len(c)))
+            raise Unsupported("member function %s%s%s: %d definitions in the instantiated class" % (
+                cls + "::" if cls else "", cname, " with type " + sig if sig else "", len(c)))
         return c[0]
+
+    def fn_table(self):
+        """cfg['functions'] entries: (cpp name, gallina name[, type string[, nested class]])"""
+        out = []
+        for item in self.cfg["functions"]:
+            item = tuple(item) + (None,) * (4 - len(item))
+            out.append(dict(cpp=item[0], g=item[1], sig=item[2], cls=item[3] or ""))
+        return out
 
     def site(self, kind, fn, node):
         self.sites.append((len(self.sites), kind, fn.cname, node.get("_line")))
@@ -384,12 +416,13 @@ class Part:
                 f.recursive = True
             return f
         if gname is None:
-            names = dict(self.cfg["functions"])
-            key = decl["name"]
-            if key not in names:
-                fail(decl, "call to member function '%s' which is not in the translation list of the part" % key)
-            gname = names[key]
+            cands = [e for e in self.fn_table() if e["cpp"] == decl["name"] and e["cls"] == self.cls_of.get(did, "") and
+                     (e["sig"] is None or e["sig"] == decl["type"]["qualType"])]
+            if len(cands) != 1:
+                fail(decl, "call to member function '%s' which is not (uniquely) in the translation list of the part" % decl["name"])
+            gname = cands[0]["g"]
         f = Fn(self, decl, decl["name"], gname)
+        f.cls = self.cls_of.get(did, "")
         self.fns[did] = f
         self.in_progress.append(f)
         try:
@@ -405,11 +438,10 @@ class Part:
 
     def translate(self):
         res = []
-        for item in self.cfg["functions"]:
-            cname, gname = item[0], item[1]
-            sig = item[2] if len(item) > 2 else None
+        for e in self.fn_table():
+            gname = e["g"]
             try:
-                self.get_fn(self.method(cname, sig), gname)
+                self.get_fn(self.method(e["cpp"], e["sig"], e["cls"]), gname)
                 res.append((gname, True, ""))
             except Unsupported as ex:
                 res.append((gname, False, "outside the subset: %s" % ex))
@@ -442,6 +474,9 @@ class FnReader:
         self.part, self.cfg, self.fn = part, part.cfg, fn
         self.vars = {}           # decl id -> Var
         self.names = set()
+        self.cls = getattr(fn, "cls", "")
+        self.ccfg = self.cfg.get("classes", {}).get(self.cls, {}) if self.cls else {}
+        self.this_locals = {}    # data member of *this of a nested class -> Var (implicit in/out parameter)
 
     def ir_type(self, node, tstr=None):
         t = node.get("type", {}) if tstr is None else None
@@ -454,23 +489,31 @@ class FnReader:
             for k in (c, c2):
                 if k in self.cfg["types"]:
                     return self.cfg["types"][k][0]
+        for c in cands:
+            if c is None:
+                continue
+            for rx, ity in self.cfg.get("type_rx", []):
+                if re.match(rx, c):
+                    return ity
         fail(node, "type '%s' is outside the subset of part %s" % (cands[0], self.cfg["name"]))
 
     def gallina_type(self, ty):
+        if ty in self.cfg.get("gallina", {}):
+            return self.cfg["gallina"][ty]
         for k, (it, gt) in self.cfg["types"].items():
             if it == ty:
                 return gt
         raise Unsupported("no Gallina type for IR type %s" % ty)
 
-    def new_var(self, d):
-        base = "v_" + re.sub(r"\W", "_", d["name"])
+    def new_var(self, d, name=None, ty=None):
+        base = "v_" + re.sub(r"\W", "_", name or d["name"])
         g, k = base, 1
         while g in self.names:
             k += 1
             g = "%s_%d" % (base, k)
         self.names.add(g)
-        v = Var(d["id"], d["name"], g, self.ir_type(d))
-        self.vars[d["id"]] = v
+        v = Var(d["id"] if name is None else "this." + name, name or d["name"], g, ty or self.ir_type(d))
+        self.vars[v.did] = v
         return v
 
     def run(self):
@@ -486,14 +529,23 @@ class FnReader:
             if p["kind"] == "ParmVarDecl":
                 if "name" not in p:
                     fail(p, "unnamed parameter")
+                if any(k.get("kind") not in (None,) and not k["kind"].endswith("Attr") for k in kids(p)):
+                    fail(p, "default argument")
                 fn.params.append(self.new_var(p))
+        fn.this_vars = []
+        for name, ty in self.ccfg.get("this_locals", []):
+            v = self.new_var(d, name="this_" + name, ty=ty)
+            self.this_locals[name] = v
+            fn.this_vars.append(v)
         body = [c for c in kids(d) if c["kind"] == "CompoundStmt"]
         if len(body) != 1:
             fail(d, "function without a body")
         fn._writes_guess = False
+        self.tab_uses = {}       # linear locals (pointers to freshly allocated arrays): did -> list of (kind, stmt index path)
         fn.body = self.stmt(body[0])
         if s_has(fn.body, "break") and not s_has(fn.body, "loop"):
             fail(d, "break outside a loop")
+        self.check_linear(fn.body)
 
     # ---- statements
     def stmt(self, n):
@@ -547,8 +599,9 @@ class FnReader:
             init = (self.stmt(c[0]) if c[0].get("kind") else None) or S("block", n, body=[])
             if not c[2].get("kind"):
                 fail(n, "for without a condition")
+            cond = self.rvalue(c[2], "bool")
             inc = (self.stmt(c[3]) if c[3].get("kind") else None) or S("block", n, body=[])
-            return S("loop", n, init=init, c=self.rvalue(c[2], "bool"), inc=inc, body=self.stmt(c[4]) or S("block", n, body=[]))
+            return S("loop", n, init=init, c=cond, inc=inc, body=self.stmt(c[4]) or S("block", n, body=[]))
         if k == "DoStmt":
             a = self.frg_assert(n)
             if a is not None:
@@ -575,15 +628,15 @@ class FnReader:
             r = strip_expr(kids(n)[0])
             if r.get("kind") == "DeclRefExpr" and r.get("referencedDecl", {}).get("kind") == "VarDecl":
                 did = r["referencedDecl"]["id"]
-                d = self.part.unit.decl.get(did)
                 if did in self.vars:
                     return None
-                if d is None:
+                d = self.part.unit.decl.get(did)
+                if d is None or not kids(d):
                     self.part.unit.dump(r["referencedDecl"]["name"])
                     cands = [x for x in self.part.unit.decl.values() if x.get("kind") == "VarDecl" and
-                             x.get("name") == r["referencedDecl"]["name"] and x.get("constexpr")]
-                    if len(cands) != 1:
-                        fail(r, "cannot find the declaration of the global")
+                             x.get("name") == r["referencedDecl"]["name"] and x.get("constexpr") and kids(x)]
+                    if len(set(json_key(x) for x in cands)) != 1:
+                        fail(r, "cannot find the declaration of the global (%d candidates)" % len(cands))
                     d = cands[0]
                 if not d.get("constexpr") or d.get("type", {}).get("qualType") != "const bool":
                     fail(r, "condition on a global that is not a constexpr bool")
@@ -638,25 +691,24 @@ class FnReader:
         if k == "BinaryOperator" and n0.get("opcode") == "=":
             lhs, rhs = kids(n0)
             lv = self.lvalue(lhs)
-            if lv[0] == "var":
-                return S("assign", n0, var=lv[1], e=self.rvalue(rhs, lv[1].ty))
-            val = self.rvalue(rhs, lv[-1])
-            return S("eval", n0, e=self.store(lv, val, n0))
+            return self.assign_stmt(lv, self.rvalue(rhs, lv_type(lv)), n0)
+        if k == "UnaryOperator" and n0.get("opcode") in ("++", "--"):
+            lv = self.lvalue(kids(n0)[0])
+            key = (n0["opcode"], lv_type(lv))
+            if key not in self.cfg.get("incdec", {}):
+                fail(n0, "%s on IR type %s is outside the subset" % key)
+            one = X("prim", lv_type(lv), n0, g=self.cfg["incdec"][key], args=[self.load(lv, n0)], kind="pure", reads=set(), writes=set())
+            return self.assign_stmt(lv, one, n0)       # the value of the ++/-- expression itself is discarded
         if k == "CStyleCastExpr" and n0.get("castKind") == "ToVoid":
             e = strip_expr(kids(n0)[0])
             if e.get("kind") == "DeclRefExpr":
                 return None          # (void)node;
             fail(n0, "cast to void of something that is not a variable")
         if k in ("CXXMemberCallExpr", "CallExpr", "CXXOperatorCallExpr"):
-            u = self.unreachable_call(n0)
-            if u:
+            if self.unreachable_call(n0):
                 return S("unreachable", n0)
             e = self.rvalue(n0, None)
             return S("eval", n0, e=e)
-        for idiom in self.cfg.get("stmt_idioms", []):
-            r = idiom(self, n0)
-            if r is not None:
-                return r
         fail(n0, "statement outside the subset")
 
     def unreachable_call(self, n):
@@ -669,10 +721,14 @@ class FnReader:
                 return True
         return False
 
-    # ---- lvalues:  ("var", Var) | ("field", name, ptr X, node, ty) | ("member", name, ty)
+    # ---- lvalues:  ("var", Var) | ("field", name, ptr X, node, ty) | ("member", name, ty) | ("index", base lvalue, index X, node, ty)
     def lvalue(self, n):
         n = strip_expr(n)
         k = n.get("kind")
+        for idiom in self.cfg.get("lvalue_idioms", []):
+            r = idiom(self, n)
+            if r is not None:
+                return r
         if k == "DeclRefExpr":
             rd = n.get("referencedDecl", {})
             if rd.get("id") in self.vars:
@@ -682,6 +738,14 @@ class FnReader:
             base = strip_expr(kids(n)[0])
             name = n.get("name")
             if base.get("kind") == "CXXThisExpr":
+                if name in self.this_locals:
+                    return ("var", self.this_locals[name])
+                if self.cls == "":
+                    if name not in self.cfg["members"]:
+                        fail(n, "data member '%s' is not bound in part %s" % (name, self.cfg["name"]))
+                    return ("member", name, self.cfg["members"][name]["ty"])
+                fail(n, "data member '%s' of nested class %s is not bound" % (name, self.cls))
+            if self.is_outer(base) and n.get("isArrow"):
                 if name not in self.cfg["members"]:
                     fail(n, "data member '%s' is not bound in part %s" % (name, self.cfg["name"]))
                 return ("member", name, self.cfg["members"][name]["ty"])
@@ -690,11 +754,30 @@ class FnReader:
                 if name not in self.cfg["fields"]:
                     fail(n, "hook field '%s' is not bound in part %s" % (name, self.cfg["name"]))
                 return ("field", name, p, n, self.cfg["fields"][name]["ty"])
-        for idiom in self.cfg.get("lvalue_idioms", []):
-            r = idiom(self, n)
-            if r is not None:
-                return r
+            if n.get("isArrow") and name in self.cfg.get("ptr_fields", {}):
+                b = self.cfg["ptr_fields"][name]
+                return ("field", name, self.rvalue(kids(n)[0], b["of"]), n, b["ty"])
+        if k == "ArraySubscriptExpr":
+            b, i = kids(n)
+            b0 = strip_expr(b)
+            if b0.get("kind") != "ImplicitCastExpr" or b0.get("castKind") != "LValueToRValue":
+                fail(n, "array subscript on something that is not a pointer variable / member")
+            blv = self.lvalue(kids(b0)[0])
+            if blv[0] not in ("var", "member") or lv_type(blv) not in self.cfg.get("arrays", {}):
+                fail(n, "array subscript on IR type %s" % lv_type(blv))
+            ix = self.rvalue(i, None)
+            if ix.ty not in self.cfg.get("index_types", []):
+                fail(n, "array index of IR type %s" % ix.ty)
+            return ("index", blv, ix, n, self.cfg["arrays"][lv_type(blv)]["elem"])
         fail(n, "lvalue outside the subset")
+
+    def is_outer(self, base):
+        """this->map (nested class holding a pointer to the container): the container object"""
+        outer = self.ccfg.get("outer")
+        if not outer or base.get("kind") != "ImplicitCastExpr" or base.get("castKind") != "LValueToRValue":
+            return False
+        m = strip_expr(kids(base)[0])
+        return m.get("kind") == "MemberExpr" and m.get("name") == outer and strip_expr(kids(m)[0]).get("kind") == "CXXThisExpr"
 
     def hook_base(self, base, member):
         """h(x).f (hook returned by reference) / h(x)->f (hook returned by pointer): the pointer expression x"""
@@ -715,35 +798,126 @@ class FnReader:
             fail(member, "hook access with %s where the part expects %s" % ("->" if member.get("isArrow") else ".", "->" if want_arrow else "."))
         return self.rvalue(c[1], "ptr")
 
+    def field_cfg(self, name):
+        return self.cfg["fields"].get(name) or self.cfg.get("ptr_fields", {})[name]
+
     def load(self, lv, node):
         if lv[0] == "var":
+            self.note_use(lv[1], "value", node)
             return X("var", lv[1].ty, node, var=lv[1])
         if lv[0] == "member":
             b = self.cfg["members"][lv[1]]
             return X("prim", b["ty"], node, g=b["rd"], args=[], kind="get", reads={"m:" + lv[1]}, writes=set())
         if lv[0] == "field":
-            b = self.cfg["fields"][lv[1]]
+            b = self.field_cfg(lv[1])
             return X("prim", b["ty"], node, g=b["rd"], args=[lv[2]], kind="read", reads={"f:" + lv[1]}, writes=set(),
                      site="null")
+        if lv[0] == "index":
+            a = self.cfg["arrays"][lv_type(lv[1])]
+            base = self.load_base(lv[1], node)
+            return X("prim", a["elem"], node, g=a["get"], args=[base, lv[2]], kind="mpure", reads={"a:" + lv_type(lv[1])}, writes=set())
         raise Unsupported("load of lvalue kind %s" % lv[0])
 
-    def store(self, lv, val, node):
+    def load_base(self, blv, node):
+        if blv[0] == "var":
+            self.note_use(blv[1], "index", node)
+            return X("var", blv[1].ty, node, var=blv[1])
+        return self.load(blv, node)
+
+    def assign_stmt(self, lv, val, node):
+        if lv[0] == "var":
+            if lv[1].ty in self.cfg.get("linear", []):
+                fail(node, "assignment to a pointer to a freshly allocated array (it must stay the unique pointer to its block)")
+            return S("assign", node, var=lv[1], e=val)
         if lv[0] == "member":
             b = self.cfg["members"][lv[1]]
-            return X("prim", "void", node, g=b["wr"], args=[val], kind="set", reads=set(), writes={"m:" + lv[1]})
+            if "wr" not in b:
+                fail(node, "data member '%s' is read-only in the binding" % lv[1])
+            if val.op == "var" and val.var.ty in self.cfg.get("linear", []):
+                self.tab_uses[val.var.did][-1] = ("move", node)
+            return S("eval", node, e=X("prim", "void", node, g=b["wr"], args=[val], kind="set", reads=set(), writes={"m:" + lv[1]}))
         if lv[0] == "field":
-            b = self.cfg["fields"][lv[1]]
+            b = self.field_cfg(lv[1])
+            if "wr" not in b:
+                fail(node, "field '%s' is read-only in the binding" % lv[1])
             # C++17: the right operand of = is sequenced before the left one
-            return X("prim", "void", node, g=b["wr"], args=[lv[2], val], kind="write", reads=set(), writes={"f:" + lv[1]},
-                     site="null", rhs_first=True)
+            return S("eval", node, e=X("prim", "void", node, g=b["wr"], args=[lv[2], val], kind="write", reads=set(),
+                                       writes={"f:" + lv[1]}, site="null", rhs_first=True))
+        if lv[0] == "index":
+            a = self.cfg["arrays"][lv_type(lv[1])]
+            base = self.load_base(lv[1], node)
+            upd = X("prim", lv_type(lv[1]), node, g=a["set"], args=[base, lv[2], val], kind="mpure", reads=set(),
+                    writes=set(), rhs_first=True)
+            if lv[1][0] == "var":
+                return S("assign", node, var=lv[1][1], e=upd)
+            b = self.cfg["members"][lv[1][1]]
+            return S("eval", node, e=X("prim", "void", node, g=b["wr"], args=[upd], kind="set", reads=set(), writes={"m:" + lv[1][1]}))
         raise Unsupported("store to lvalue kind %s" % lv[0])
+
+    # ---- linear locals (a pointer to a freshly allocated array is represented by the array value itself)
+    def note_use(self, var, kind, node):
+        if var.ty in self.cfg.get("linear", []):
+            self.tab_uses.setdefault(var.did, []).append((kind, node))
+
+    def check_linear(self, body):
+        """a local of a `linear` type (chain **new_table): initialised by the allocation idiom, then used only as the base of
+        subscripts, and finally moved into a data member by a statement of the function's top-level block after which it is
+        not used any more -- so the array value is never shared and can stand for the block"""
+        lin = self.cfg.get("linear", [])
+        if not lin:
+            return
+        for st in walk_stmts(body):
+            if st.op == "decl" and st.var.ty in lin:
+                if st.e is None or st.e.op != "prim" or st.e.kind != "alloc":
+                    fail(st.node, "pointer to an array that is not initialised by an allocation")
+                uses = self.tab_uses.get(st.var.did, [])
+                moves = [u for u in uses if u[0] == "move"]
+                if len(moves) != 1 or any(u[0] not in ("move", "index") for u in uses):
+                    fail(st.node, "pointer to a freshly allocated array used other than by subscripts and one final move into a member")
+                top = body.body if body.op == "block" else [body]
+                idx = [i for i, t in enumerate(top) if t.node is moves[0][1] or (t.op == "eval" and t.node is moves[0][1])]
+                if len(idx) != 1:
+                    fail(moves[0][1], "the move of the array pointer into the member is not a statement of the function's top-level block")
+                for later in top[idx[0] + 1:]:
+                    used = set()
+                    s_used(later, used)
+                    if st.var.did in used:
+                        fail(later.node, "use of the array pointer after it was moved into the member")
+        for v in self.fn.params:
+            if v.ty in lin:
+                fail(self.fn.decl, "parameter of a linear array-pointer type")
 
     # ---- rvalues
     def rvalue(self, n, want):
         e = self.rvalue0(n)
         if want is not None and e.ty != want:
+            conv = self.cfg.get("coerce", {}).get((e.ty, want))
+            if conv is not None:
+                return X("prim", want, n, g=conv, args=[e], kind="pure", reads=set(), writes=set()) if conv else retype(e, want)
             fail(n, "expression of IR type %s where %s is expected" % (e.ty, want))
         return e
+
+    def type_known(self, n):
+        try:
+            self.ir_type(n)
+            return True
+        except Unsupported:
+            return False
+
+    def glvalue_or_rvalue(self, n, want):
+        """an argument bound to a reference parameter: a glvalue (its load) or a prvalue materialised into a temporary"""
+        n0 = strip_expr(n)
+        if n0.get("valueCategory") in ("lvalue", "xvalue") and n0.get("kind") in ("DeclRefExpr", "MemberExpr", "CXXMemberCallExpr"):
+            e = self.glvalue(n0)
+        else:
+            e = self.rvalue0(n0)
+        if e.ty != want:
+            fail(n, "argument of IR type %s where %s is expected" % (e.ty, want))
+        return e
+
+    def glvalue(self, n):
+        """the value of a glvalue expression (bound to a const reference / moved from): its load"""
+        return self.load(self.lvalue(n), n)
 
     def rvalue0(self, n):
         n = strip_expr(n)
@@ -775,6 +949,19 @@ class FnReader:
                 if self.ir_type(n) != e.ty:
                     fail(n, "bit cast that changes the IR type")
                 return e
+            if ck in ("IntegralCast", "IntegralToBoolean"):
+                s0 = strip_expr(sub)
+                to = self.ir_type(n)
+                if s0.get("kind") == "IntegerLiteral":
+                    if to not in self.cfg.get("lit_fmt", {}):
+                        fail(n, "integer literal of IR type %s" % to)
+                    return X("const", to, n, g=self.cfg["lit_fmt"][to] % int(s0["value"]))
+                e = self.rvalue(sub, None)
+                key = (ck, e.ty, to)
+                if key not in self.cfg.get("casts", {}):
+                    fail(n, "conversion %s from IR type %s to %s is outside the subset" % key)
+                g = self.cfg["casts"][key]
+                return X("prim", to, n, g=g, args=[e], kind="pure", reads=set(), writes=set()) if g else retype(e, to)
             fail(n, "implicit cast kind outside the subset")
         if k == "CXXStaticCastExpr":
             if n.get("castKind") not in ("BitCast", "NoOp"):
@@ -788,22 +975,28 @@ class FnReader:
         if k == "CXXBoolLiteralExpr":
             return X("const", "bool", n, g="true" if n["value"] else "false")
         if k == "UnaryOperator":
-            if n.get("opcode") == "!":
+            op = n.get("opcode")
+            if op == "!":
                 return X("not", "bool", n, a=self.rvalue(kids(n)[0], "bool"))
+            if op == "*" and strip_expr(kids(n)[0]).get("kind") == "CXXThisExpr" and self.fn.this_vars:
+                return self.this_tuple(n)       # return *this;
             fail(n, "unary operator outside the subset")
         if k == "BinaryOperator":
             op = n.get("opcode")
             a, b = kids(n)
             if op in ("&&", "||"):
                 return X("and" if op == "&&" else "or", "bool", n, a=self.rvalue(a, "bool"), b=self.rvalue(b, "bool"))
-            if op in ("==", "!="):
-                ea, eb = self.rvalue(a, None), self.rvalue(b, None)
-                if ea.ty != eb.ty or ea.ty not in self.cfg["eqb"]:
-                    fail(n, "comparison of IR types %s and %s" % (ea.ty, eb.ty))
+            ea, eb = self.rvalue(a, None), self.rvalue(b, None)
+            if op in ("==", "!=") and ea.ty == eb.ty and ea.ty in self.cfg["eqb"]:
                 self.check_unseq([ea, eb], n)
                 e = X("prim", "bool", n, g=self.cfg["eqb"][ea.ty], args=[ea, eb], kind="pure", reads=set(), writes=set())
                 return e if op == "==" else X("not", "bool", n, a=e)
-            fail(n, "binary operator '%s' outside the subset" % op)
+            key = (op, ea.ty, eb.ty)
+            if key in self.cfg.get("binops", {}):
+                g, rty = self.cfg["binops"][key]
+                self.check_unseq([ea, eb], n)
+                return X("prim", rty, n, g=g, args=[ea, eb], kind="pure", reads=set(), writes=set())
+            fail(n, "binary operator '%s' on IR types %s, %s is outside the subset" % key)
         if k in ("CXXMemberCallExpr", "CallExpr"):
             return self.call(n)
         if k == "DeclRefExpr" and n.get("referencedDecl", {}).get("kind") == "EnumConstantDecl":
@@ -814,6 +1007,10 @@ class FnReader:
                 fail(n, "enumerator not bound in the part")
             return X("const", ty, n, g=self.cfg["enum_consts"][key])
         fail(n, "expression outside the subset")
+
+    def this_tuple(self, n):
+        tv = self.fn.this_vars
+        return X("tuple", self.ccfg["self_ty"], n, args=[X("var", v.ty, n, var=v) for v in tv])
 
     def check_unseq(self, es, node):
         fx = [x_effects(e) for e in es]
@@ -840,15 +1037,42 @@ class FnReader:
         d = self.part.by_id[did]
         if d["name"] == self.cfg.get("hook_fn"):
             fail(n, "hook accessor used other than as h(x).field")
+        if self.part.cls_of.get(did, "") != self.cls:
+            fail(n, "call into another class")
         f = self.part.get_fn(d)
         args = []
         ps = [p for p in kids(d) if p["kind"] == "ParmVarDecl"]
         if len(ps) != len(c) - 1:
             fail(n, "argument count (default arguments are outside the subset)")
         for p, a in zip(ps, c[1:]):
-            args.append(self.rvalue(a, self.ir_type(p)))
+            pt = self.ir_type(p)
+            if self.is_ref(p):
+                args.append(self.glvalue(a))
+            else:
+                args.append(self.rvalue(a, pt))
         self.check_unseq(args, n)
-        return X("call", f.ret_ty if f.done or f.ret_ty else "void", n, fn=f, args=args)
+        return X("call", f.ret_ty, n, fn=f, args=args)
+
+    @staticmethod
+    def is_ref(p):
+        return p.get("type", {}).get("qualType", "").rstrip().endswith("&")
+
+
+def lv_type(lv):
+    if lv[0] == "var":
+        return lv[1].ty
+    return lv[-1]
+
+
+def retype(e, ty):
+    e2 = X(e.op, ty, e.node)
+    e2.__dict__.update({k: v for k, v in e.__dict__.items() if k not in ("ty",)})
+    e2.ty = ty
+    return e2
+
+
+def json_key(d):
+    return (d.get("name"), d.get("type", {}).get("qualType"), d.get("_line"))
 
 
 # ------------------------------------------------------------------------------------------------ IR -> Gallina
@@ -903,7 +1127,7 @@ class Emitter:
                 return "%s (if %s then\n%s\n  else\n%s) (fun %s =>\n%s)" % (
                     cfg["bind"], a, ind(th, 4), ind(el, 4), tup_pat(st + [t]), k(t))
             return self.ev(e.a, ctx, after_a)
-        if e.op in ("prim", "call"):
+        if e.op in ("prim", "call", "tuple"):
             order = list(range(len(e.args)))
             if getattr(e, "rhs_first", False):
                 order.reverse()
@@ -912,6 +1136,8 @@ class Emitter:
             def go(i):
                 if i == len(order):
                     a = [vals[j] for j in range(len(e.args))]
+                    if e.op == "tuple":
+                        return k("(" + ", ".join(a) + ")")
                     return self.prim(e, a, k) if e.op == "prim" else self.call(e, a, ctx, k)
                 j = order[i]
 
@@ -943,6 +1169,12 @@ class Emitter:
         if e.kind == "rw":
             t = self.temp()
             return "%s (%s%s s %s) (fun '(s, %s) =>\n%s)" % (cfg["bind"], e.g, site, a, t, k(t))
+        if e.kind == "alloc":
+            t = self.temp()
+            return "let '(s, %s) := %s s %s in\n%s" % (t, e.g, a, k(t))
+        if e.kind == "mpure":
+            t = self.temp()
+            return "%s (%s %s) (fun %s =>\n%s)" % (cfg["bind"], e.g, a, t, k(t))
         raise Unsupported("prim kind %s" % e.kind)
 
     def call(self, e, args, ctx, k):
@@ -1067,7 +1299,8 @@ class Emitter:
 
         def after_init():
             self.nloop += 1
-            lname = "%s_loop%d" % (fn.gname, self.nloop)
+            lnum = self.nloop
+            lname = "%s_loop%d" % (fn.gname, lnum)
             parts = S("block", s.node, body=[s.body, s.inc])
             asg, used, decl = set(), set(), set()
             s_assigned(parts, asg)
@@ -1085,8 +1318,12 @@ class Emitter:
             ccalls = []
             x_calls(s.c, ccalls)
             need0 = s_has(parts, "loop") or any(f.has_fuel() for f in s_calls(parts) + ccalls)
-            names = (["s"] if wst else []) + [v.gname for v in carried]
-            tys = ([cfg["state_ty"]] if wst else []) + [self.gty(v.ty) for v in carried]
+            # locals declared by the init-statement of a for loop are out of scope after it: not part of the result
+            idecl = set()
+            s_declared(s.init, idecl)
+            live = [v for v in carried if v.did not in idecl]
+            names = (["s"] if wst else []) + [v.gname for v in live]
+            tys = ([cfg["state_ty"]] if wst else []) + [self.gty(v.ty) for v in live]
             norm_ty = tup_ty(tys)
             if has_ret:
                 res_ty = "%s (ctl %s %s)" % (cfg["pres"], paren(self.ret_ty_txt()), paren(norm_ty))
@@ -1119,7 +1356,7 @@ class Emitter:
                 "".join(" (%s : %s)" % (v.gname, self.gty(v.ty)) for v in ro) + " (s : %s)" % cfg["state_ty"] + \
                 "".join(" (%s : %s)" % (v.gname, self.gty(v.ty)) for v in carried)
             self.aux.append("(* loop %d of %s, line %s *)\nFixpoint %s%s {struct fuel} : %s :=\n%s." % (
-                self.nloop, fn.cname, s.node.get("_line"), lname, params, res_ty, ind(ltxt)))
+                lnum, fn.cname, stmt_line(s.node), lname, params, res_ty, ind(ltxt)))
             first = " ".join([lname] + fuel_args + [ctx.fuel] + [v.gname for v in ro] + ["s"] + [v.gname for v in carried])
             if has_ret:
                 t = self.temp()
@@ -1143,8 +1380,9 @@ class Emitter:
 
     def run(self):
         fn, cfg = self.fn, self.cfg
-        self.scope = list(fn.params)
-        self.set_vars = set(v.did for v in fn.params)
+        allp = list(fn.params) + list(getattr(fn, "this_vars", []))
+        self.scope = list(allp)
+        self.set_vars = set(v.did for v in allp)
         ctx = Ctx(lambda v: "%s %s" % (cfg["ok"], self.ret_pack(v)), lambda r: "%s %s" % (cfg["ok"], r),
                   fuel="fuel" if fn.recursive else "fuel0")
 
@@ -1154,7 +1392,7 @@ class Emitter:
             return ctx.ret(None)
         body = self.st(fn.body, ctx, fall)
         params = (" (fuel : nat)" if fn.recursive else " (fuel0 : nat)" if fn.has_fuel() else "") + \
-            " (s : %s)" % cfg["state_ty"] + "".join(" (%s : %s)" % (v.gname, self.gty(v.ty)) for v in fn.params)
+            " (s : %s)" % cfg["state_ty"] + "".join(" (%s : %s)" % (v.gname, self.gty(v.ty)) for v in allp)
         rty = "%s %s" % (cfg["pres"], paren(self.ret_ty_txt()))
         cm = "(* %s, line %s *)\n" % ((fn.decl["type"]["qualType"] + " " + fn.cname).replace("(*", "( *").replace("*)", "* )"),
                                       decl_line(fn.decl))
@@ -1201,3 +1439,226 @@ def functor_idiom(tag, functor_class, gname, arg_tys, ret_ty, reads=()):
         tr.check_unseq(args, n)
         return X("prim", ret_ty, n, g=gname, args=args, kind="read", reads=set(reads), writes=set())
     return rec
+
+
+def _callee(n):
+    """(kind, name, base) of the callee of a call node: ("member", name, object node) | ("fn", name, None)"""
+    c = kids(n)
+    if not c:
+        return (None, None, None)
+    f = strip_expr(c[0])
+    if f.get("kind") == "ImplicitCastExpr" and f.get("castKind") in ("FunctionToPointerDecay", "BuiltinFnToFnPtr"):
+        f = strip_expr(kids(f)[0])
+    if f.get("kind") == "MemberExpr":
+        return ("member", f.get("name"), strip_expr(kids(f)[0]))
+    if f.get("kind") == "DeclRefExpr":
+        return ("fn", f.get("referencedDecl", {}).get("name"), None)
+    return (None, None, None)
+
+
+def _this_member(n, name):
+    n = strip_expr(n)
+    return n.get("kind") == "MemberExpr" and n.get("name") == name and strip_expr(kids(n)[0]).get("kind") == "CXXThisExpr"
+
+
+def _sizeof_times(tr, n, elem_ty):
+    """sizeof(<type of IR type elem_ty>) * E  ->  E"""
+    n = strip_expr(n)
+    if n.get("kind") != "BinaryOperator" or n.get("opcode") != "*":
+        fail(n, "allocation size that is not sizeof(T) * n")
+    a, b = kids(n)
+    a = strip_expr(a)
+    if a.get("kind") != "UnaryExprOrTypeTraitExpr" or a.get("name") != "sizeof" or "argType" not in a:
+        fail(n, "allocation size that is not sizeof(T) * n")
+    at = a["argType"]
+    if tr.ir_type(a, at.get("desugaredQualType") or at.get("qualType")) != elem_ty:
+        fail(a, "sizeof of an unexpected type")
+    return tr.rvalue(b, "sz")
+
+
+def tuple_get_lvalue(tr, n):
+    """p->entry.get<0>() / get<1>(): the key / value stored in chain node p"""
+    if n.get("kind") != "CXXMemberCallExpr" or len(kids(n)) != 1:
+        return None
+    kind, name, obj = _callee(n)
+    if kind != "member" or name != "get" or obj.get("kind") != "MemberExpr" or obj.get("name") != "entry" or not obj.get("isArrow"):
+        return None
+    qt = n.get("type", {}).get("qualType", "")
+    m = re.search(r"nth_type<\s*(\d+)\s*,", qt)
+    if not m:
+        fail(n, "tuple get<> whose index cannot be read from the node type '%s'" % qt)
+    field = {"0": "key", "1": "val"}.get(m.group(1))
+    if field is None:
+        fail(n, "tuple index %s" % m.group(1))
+    b = tr.cfg["ptr_fields"][field]
+    if tr.ir_type(n) != b["ty"]:
+        fail(n, "get<%s> of IR type %s" % (m.group(1), tr.ir_type(n)))
+    return ("field", field, tr.rvalue(kids(obj)[0], b["of"]), n, b["ty"])
+
+
+def hashmap_idioms(tr, n):
+    cfg = tr.cfg
+    k = n.get("kind")
+    # ((unsigned int)_hasher(K)) % E
+    if k == "BinaryOperator" and n.get("opcode") == "%":
+        a, b = kids(n)
+        a = strip_expr(a)
+        if a.get("kind") == "ImplicitCastExpr" and a.get("castKind") == "IntegralCast":
+            c = strip_expr(kids(a)[0])
+            if c.get("kind") == "CStyleCastExpr" and c.get("type", {}).get("qualType") == "unsigned int":
+                h = strip_expr(kids(c)[0])
+                if h.get("kind") == "ImplicitCastExpr" and h.get("castKind") == "IntegralCast":
+                    h = strip_expr(kids(h)[0])
+                if h.get("kind") == "CXXOperatorCallExpr":
+                    hc = kids(h)
+                    kind, name, _ = _callee(h)
+                    if name == "operator()" and len(hc) == 3 and _this_member(hc[1], "_hasher"):
+                        key = tr.glvalue(hc[2])
+                        if key.ty != "key":
+                            fail(h, "hasher applied to IR type %s" % key.ty)
+                        if tr.ir_type(n) != "sz":
+                            fail(n, "type of the % expression")
+                        return X("prim", "sz", n, g="hash_mod hash", args=[key, tr.rvalue(b, "sz")], kind="mpure", reads=set(), writes=set())
+        return None
+    if k == "CallExpr":
+        kind, name, _ = _callee(n)
+        c = kids(n)
+        if kind == "fn" and name == "construct" and len(c) == 4 and _this_member(c[1], "_allocator"):
+            if tr.ir_type(n) != "ptr":
+                fail(n, "construct<> of something that is not a chain node")
+            check_chain_ctor(tr, n)
+            return X("prim", "ptr", n, g="new_node", args=[tr.glvalue_or_rvalue(c[2], "key"), tr.glvalue_or_rvalue(c[3], "val")], kind="alloc",
+                     reads=set(), writes={"f:key", "f:val", "f:next", "alloc"})
+        if kind == "fn" and name == "destruct" and len(c) == 3 and _this_member(c[1], "_allocator"):
+            return X("prim", "void", n, g="free_node", args=[tr.rvalue(c[2], "ptr")], kind="write", reads=set(),
+                     writes={"f:key", "f:val", "f:next", "alloc"})
+        if kind == "fn" and name == "move" and len(c) == 2:
+            return tr.glvalue(c[1])
+        return None
+    if k == "CStyleCastExpr" and n.get("castKind") == "BitCast":
+        sub = strip_expr(kids(n)[0])
+        if sub.get("kind") == "CXXMemberCallExpr":
+            kind, name, obj = _callee(sub)
+            if kind == "member" and name == "allocate" and _this_member(obj, "_allocator") and len(kids(sub)) == 2:
+                if tr.ir_type(n) != "tab":
+                    fail(n, "allocate() cast to something that is not the table type")
+                cnt = _sizeof_times(tr, kids(sub)[1], "ptr")
+                return X("prim", "tab", n, g="new_table", args=[cnt], kind="alloc", reads=set(), writes={"alloc"})
+        return None
+    if k == "CXXMemberCallExpr":
+        kind, name, obj = _callee(n)
+        c = kids(n)
+        if kind == "member" and name == "deallocate" and _this_member(obj, "_allocator") and len(c) == 3:
+            p = strip_expr(c[1])
+            if p.get("kind") == "ImplicitCastExpr" and p.get("castKind") == "BitCast":
+                p = kids(p)[0]
+            t = tr.rvalue(p, "tab")
+            cnt = _sizeof_times(tr, c[2], "ptr")
+            return X("prim", "void", n, g="free_table", args=[t, cnt], kind="set", reads=set(), writes={"alloc"})
+        if kind == "member" and name == "get":
+            lv = tuple_get_lvalue(tr, n)
+            if lv is not None and lv[1] == "val":        # a reference to the value inside node p is represented by p
+                return retype(lv[2], "vref")
+        return None
+    if k == "UnaryOperator" and n.get("opcode") == "&":
+        sub = strip_expr(kids(n)[0])
+        lv = tuple_get_lvalue(tr, sub) if sub.get("kind") == "CXXMemberCallExpr" else None
+        if lv is not None and lv[1] == "val":            # &p->entry.get<1>(): the pointer to the value inside node p
+            return retype(lv[2], "vptr")
+        return None
+    if k in ("CXXTemporaryObjectExpr", "CXXConstructExpr"):
+        ty = tr.ir_type(n) if tr.type_known(n) else None
+        c = kids(n)
+        if ty == "iter":
+            order = iterator_ctor_params(tr, n)
+            if len(c) != len(order) or strip_expr(c[order.index("map")]).get("kind") != "CXXThisExpr":
+                fail(n, "iterator constructed from something else than (this, bucket, item)")
+            want = dict(tr.cfg["classes"]["iterator"]["this_locals"])
+            return X("tuple", "iter", n, args=[tr.rvalue(c[order.index(m)], want[m]) for m, _ in tr.cfg["classes"]["iterator"]["this_locals"]])
+        if ty == "oval":
+            sig = n.get("ctorType", {}).get("qualType", "")
+            if len(c) == 1 and "null_opt_type" in sig:
+                return X("const", "oval", n, g="None")
+            if len(c) == 1 and re.match(r"^void \((const )?long long ?(&&|&)\)", sig):
+                return X("prim", "oval", n, g="Some", args=[tr.glvalue(c[0])], kind="pure", reads=set(), writes=set())
+            fail(n, "optional constructed by '%s'" % sig)
+        return None
+    if k == "ImplicitCastExpr" and n.get("castKind") == "ConstructorConversion":
+        return hashmap_idioms(tr, strip_expr(kids(n)[0]))
+    if k == "CXXFunctionalCastExpr" and n.get("castKind") == "NoOp":
+        sub = strip_expr(kids(n)[0])
+        if sub.get("kind") == "InitListExpr" and not kids(sub) and tr.ir_type(n) in cfg.get("zero", {}):
+            return X("const", tr.ir_type(n), n, g=cfg["zero"][tr.ir_type(n)])       # Value{}
+        return None
+    return None
+
+
+def iterator_ctor_params(tr, n):
+    """parameter names of the iterator constructor, after checking that it only copies each parameter into the member of
+    the same name"""
+    part = tr.part
+    recs = [c for c in kids(part.spec) if c.get("kind") == "CXXRecordDecl" and c.get("name") == "iterator" and c.get("completeDefinition")]
+    ctors = [c for r in recs for c in kids(r) if c.get("kind") == "CXXConstructorDecl" and not c.get("isImplicit") and
+             any(x.get("kind") == "CXXCtorInitializer" for x in kids(c))]
+    if len(ctors) != 1:
+        fail(n, "expected exactly one user-written iterator constructor, found %d" % len(ctors))
+    ct = ctors[0]
+    ps = [p["name"] for p in kids(ct) if p["kind"] == "ParmVarDecl"]
+    inits = [x for x in kids(ct) if x.get("kind") == "CXXCtorInitializer"]
+    seen = set()
+    for i in inits:
+        f = i.get("anyInit", {}).get("name")
+        v = strip_expr(kids(i)[0])
+        if v.get("kind") == "ImplicitCastExpr" and v.get("castKind") == "LValueToRValue":
+            v = strip_expr(kids(v)[0])
+        if v.get("kind") != "DeclRefExpr" or v.get("referencedDecl", {}).get("name") != f or f not in ps:
+            fail(i, "iterator constructor that does not copy parameter '%s' into the member of the same name" % f)
+        seen.add(f)
+    body = [c for c in kids(ct) if c["kind"] == "CompoundStmt"]
+    if seen != set(ps) or len(body) != 1 or kids(body[0]):
+        fail(ct, "iterator constructor shape")
+    return ps
+
+
+def check_chain_ctor(tr, n):
+    """the chain constructors: entry{new_key, new_value (moved or not)}, next{nullptr}, empty body"""
+    part = tr.part
+    recs = [c for c in kids(part.spec) if c.get("kind") == "CXXRecordDecl" and c.get("name") == "chain" and c.get("completeDefinition")]
+    ctors = [c for r in recs for c in kids(r) if c.get("kind") == "CXXConstructorDecl" and not c.get("isImplicit") and
+             any(x.get("kind") == "CXXCtorInitializer" for x in kids(c))]
+    if not ctors:
+        fail(n, "no chain constructor found")
+    for ct in ctors:
+        inits = [x for x in kids(ct) if x.get("kind") == "CXXCtorInitializer"]
+        names = [i.get("anyInit", {}).get("name") for i in inits]
+        if names != ["entry", "next"]:
+            fail(ct, "chain constructor initialises %s" % names)
+        refs = []
+
+        def rec(x):
+            if isinstance(x, dict):
+                if x.get("kind") == "DeclRefExpr" and x.get("referencedDecl", {}).get("kind") == "ParmVarDecl":
+                    refs.append(x["referencedDecl"]["name"])
+                for v in x.get("inner", []):
+                    rec(v)
+        rec(inits[0])
+        ps = [p["name"] for p in kids(ct) if p["kind"] == "ParmVarDecl"]
+        if refs != ps or len(ps) != 2:
+            fail(ct, "chain constructor: entry is not built from (key, value) in this order")
+        nx = strip_expr(kids(inits[1])[0])
+        while nx.get("kind") in ("InitListExpr", "ImplicitCastExpr"):
+            nx = strip_expr(kids(nx)[0])
+        if nx.get("kind") != "CXXNullPtrLiteralExpr":
+            fail(ct, "chain constructor: next is not initialised with nullptr")
+        body = [c for c in kids(ct) if c["kind"] == "CompoundStmt"]
+        if len(body) != 1 or kids(body[0]):
+            fail(ct, "chain constructor with a body")
+
+
+def move_lvalue(tr, n):
+    """std::move(x) as a glvalue: x"""
+    if n.get("kind") == "CallExpr":
+        kind, name, _ = _callee(n)
+        if kind == "fn" and name == "move" and len(kids(n)) == 2:
+            return tr.lvalue(kids(n)[1])
+    return None
